@@ -355,6 +355,11 @@ func (db *DB) get(in Object) (out Object, err error) {
 	err = unmarshalJsonFile(path, in)
 	out = in
 
+	// an object which could not be read must not be cached
+	if err != nil {
+		return
+	}
+
 	// we cache the object
 	if s.mustCache() {
 		db.cache.put(out)
